@@ -291,9 +291,10 @@ def explain_fault(e, r, txt):
 # text-level faults through the REAL front ends (harness/textpath.py): truncation at every offset, byte flips at every
 # offset, junk after the root element.  Oracle for "not well-formed": expat driven directly.
 from harness import textpath  # noqa: E402
-from harness.common import concretize, concretize_bs, untraced  # noqa: E402
+from harness.common import concretize, concretize_bs, known, untraced  # noqa: E402
 
 _TFKIND = PART.get("tkind", "truncate")
+_KNOWN_LXML_TRUNC = known("C15-lxml-truncated-start-tag-typeerror")
 _TFN = {}
 
 
@@ -302,6 +303,15 @@ def _tf_n():
         with untraced():
             _TFN[_DOC] = len(textpath.doc_text(_DOC)[1].encode())
     return _TFN[_DOC]
+
+
+def _innermost(e):
+    tb = e.__traceback__
+    name = None
+    while tb is not None:
+        name = tb.tb_frame.f_code.co_name
+        tb = tb.tb_next
+    return name
 
 
 def _text_fault(doc, kind, k, j):
@@ -322,6 +332,8 @@ def _text_fault(doc, kind, k, j):
             good, what = True, "raised " + type(e).__name__
         except Exception as e:  # noqa: BLE001
             good, what = False, "leaked %s: %s" % (type(e).__name__, str(e)[:120])
+            if _KNOWN_LXML_TRUNC and h == "lxml" and isinstance(e, TypeError) and _innermost(e) == "split_qname":
+                good, what = True, what + " [listed known finding: call site split_qname(None) under the lxml handler]"
         out[h] = what
         out["ok"] = out["ok"] and good
     return out
@@ -439,3 +451,19 @@ def plan(tier):
             seen.add(j.key)
             uniq.append(j)
     return uniq
+
+
+def lxml_truncated_witness():
+    """Known finding C15-lxml-truncated-start-tag-typeerror through the public API."""
+    from harness.models import WildList
+    from xsdata.formats.dataclass.parsers import XmlParser
+    from xsdata.formats.dataclass.parsers.handlers import LxmlEventHandler
+
+    data = b'<wl><ns0:d xmlns:ns0="urn:c" xmlns:xsi="http://www.w3.org/2001/XMLSchema-instance" v="3" xsi:type="alpha"/'
+    try:
+        XmlParser(handler=LxmlEventHandler).from_bytes(data, WildList)
+    except ALLOWED:
+        return True
+    except Exception:  # noqa: BLE001
+        return False
+    return True
